@@ -35,15 +35,31 @@ var importSwap = map[string]string{
 	"sync/atomic":  rtPath + "/simatomic",
 	"math/rand":    rtPath + "/simrand",
 	"math/rand/v2": rtPath + "/simrand2",
+	"hash/maphash": rtPath + "/simmaphash",
+	"crypto/rand":  rtPath + "/simcrand",
 }
 
-var defaultName = map[string]string{"sync": "sync", "sync/atomic": "atomic", "math/rand": "rand", "math/rand/v2": "rand"}
+var defaultName = map[string]string{"sync": "sync", "sync/atomic": "atomic", "math/rand": "rand", "math/rand/v2": "rand", "hash/maphash": "maphash", "crypto/rand": "rand"}
 
 var timeRedirect = map[string]bool{"Now": true, "Since": true, "Until": true, "Sleep": true}
 var timeRefuse = map[string]bool{"After": true, "AfterFunc": true, "NewTimer": true, "NewTicker": true, "Tick": true}
 
 // imports that cannot run under the simulator (real blocking / unmanaged goroutines / I/O)
 var refuseImport = map[string]bool{"C": true, "net": true, "net/http": true, "os/exec": true, "os/signal": true, "syscall": true, "context": true}
+
+// Knob is a capacity-like integer constant (cache size, ring length, entry
+// limit): a tuning knob the simulator may shrink in a variant build so that
+// eviction / wrap-around / "full" paths are reached by short histories.
+type Knob struct {
+	ID    int    `json:"id"`
+	Name  string `json:"name"` // constant name, or "" for an inline literal
+	File  string `json:"file"`
+	Line  int    `json:"line"`
+	Value int64  `json:"value"`
+	Use   string `json:"use"` // how it is used: array | make | mod | lencmp | mask
+	off   int
+	n     int
+}
 
 // Site describes one inserted yield.
 type Site struct {
@@ -69,6 +85,7 @@ type Report struct {
 	GoStmts        int      `json:"go_stmts"`
 	Unmodelled     []string `json:"unmodelled"`
 	Refusals       []string `json:"refusals"`
+	Knobs          []Knob   `json:"knobs"`
 	TypeCheck      string   `json:"typecheck"`
 	TreeDigest     string   `json:"tree_digest"`
 	SiteDigest     string   `json:"site_digest"`
@@ -154,6 +171,12 @@ func SnapshotPlain(src, dst string) (digest string, files []string, err error) {
 // Instrument reads the plain snapshot in plainDir and writes the instrumented
 // copy to dstDir. simDir is the absolute path of the verif/sim module.
 func Instrument(plainDir, dstDir, simDir string) (*Report, error) {
+	return InstrumentShrunk(plainDir, dstDir, simDir, nil)
+}
+
+// InstrumentShrunk is Instrument with the knobs named in shrink (knob id ->
+// replacement text) rewritten: a configuration variant of the same tree.
+func InstrumentShrunk(plainDir, dstDir, simDir string, shrink map[int]string) (*Report, error) {
 	rep := &Report{}
 	var files []string
 	err := filepath.Walk(plainDir, func(p string, info os.FileInfo, err error) error {
@@ -223,6 +246,16 @@ func Instrument(plainDir, dstDir, simDir string) (*Report, error) {
 	for _, fc := range all {
 		if err := instrumentFile(fset, fc, rep, info, &nextSite); err != nil {
 			return nil, err
+		}
+	}
+	collectKnobs(fset, all, rep, info)
+	for _, k := range rep.Knobs {
+		if txt, ok := shrink[k.ID]; ok {
+			for _, fc := range all {
+				if fc.rel == k.File {
+					fc.replace(k.off, k.n, txt)
+				}
+			}
 		}
 	}
 	if nextSite >= 1<<16 {
@@ -404,7 +437,7 @@ func instrumentFile(fset *token.FileSet, fc *fileCtx, rep *Report, info *types.I
 		switch path {
 		case "strings", "bytes", "unicode", "unicode/utf8", "unicode/utf16", "strconv", "sort", "slices", "maps", "fmt", "errors",
 			"math", "math/bits", "regexp", "unsafe", "time", "html", "net/url", "encoding/hex", "encoding/base64", "encoding/binary",
-			"hash/fnv", "hash/crc32", "hash/maphash", "container/list", "container/heap", "container/ring", "cmp", "iter", "runtime", "os", "io", "bufio", "reflect", "text/scanner", "unique", "crypto/sha256", "crypto/sha1", "crypto/md5", "encoding/json", "log", "runtime/debug":
+			"hash/fnv", "hash/crc32", "container/list", "container/heap", "container/ring", "cmp", "iter", "runtime", "os", "io", "bufio", "reflect", "text/scanner", "unique", "crypto/sha256", "crypto/sha1", "crypto/md5", "encoding/json", "log", "runtime/debug":
 		default:
 			if !refuseImport[path] && !strings.HasPrefix(path, rep.ModulePath) {
 				rep.Unmodelled = append(rep.Unmodelled, fc.rel+": import "+path)
@@ -446,6 +479,18 @@ func instrumentFile(fset *token.FileSet, fc *fileCtx, rep *Report, info *types.I
 			}
 		case *ast.FuncLit:
 			addSite("funclit", x.Body.Lbrace)
+		case *ast.IfStmt:
+			addSite("if", x.Body.Lbrace)
+			if eb, ok := x.Else.(*ast.BlockStmt); ok {
+				addSite("else", eb.Lbrace)
+			}
+		case *ast.CaseClause:
+			// a yield right after the colon: branch-level coverage and preemption points
+			id := *nextSite
+			*nextSite++
+			pp := fset.Position(x.Colon)
+			rep.Sites = append(rep.Sites, Site{ID: id, File: fc.rel, Line: pp.Line, Kind: "case", Func: funcName})
+			fc.insert(pp.Offset+1, fmt.Sprintf(" %s.Yield(%d);", rtName, id))
 		case *ast.ForStmt:
 			addSite("for", x.Body.Lbrace)
 		case *ast.RangeStmt:
@@ -644,4 +689,175 @@ func rewriteGo(fset *token.FileSet, fc *fileCtx, rep *Report, g *ast.GoStmt, inf
 	repl := fmt.Sprintf("{ %s := %s; %s.Go(func() { verif_go_f(%s) }) }", strings.Join(names, ", "), strings.Join(vals, ", "), rtName, strings.Join(args, ", "))
 	end := fc.off(fset, g.End())
 	fc.replace(goOff, end-goOff, repl)
+}
+
+// ---------------------------------------------------------------- knobs
+
+func intLit(e ast.Expr) (int64, bool) {
+	switch x := ast.Unparen(e).(type) {
+	case *ast.BasicLit:
+		if x.Kind == token.INT {
+			v, err := strconv.ParseInt(strings.ReplaceAll(x.Value, "_", ""), 0, 64)
+			return v, err == nil
+		}
+	case *ast.BinaryExpr:
+		if x.Op == token.SHL {
+			a, ok1 := intLit(x.X)
+			b, ok2 := intLit(x.Y)
+			if ok1 && ok2 && b < 40 {
+				return a << uint(b), true
+			}
+		}
+	}
+	return 0, false
+}
+
+// hasLenCall reports whether e contains len(x)/cap(x) of a CONTAINER (map,
+// slice, array, channel). len of a string is an input-length threshold, not a
+// capacity: shrinking it would switch the guarded feature off rather than
+// stress it.
+func hasLenCall(e ast.Expr, info *types.Info) bool {
+	found := false
+	ast.Inspect(e, func(n ast.Node) bool {
+		if c, ok := n.(*ast.CallExpr); ok && len(c.Args) == 1 {
+			if id, ok := c.Fun.(*ast.Ident); ok && (id.Name == "len" || id.Name == "cap") {
+				if info == nil {
+					return true
+				}
+				if tv, ok := info.Types[c.Args[0]]; ok && tv.Type != nil {
+					switch u := tv.Type.Underlying().(type) {
+					case *types.Map, *types.Slice, *types.Array, *types.Chan:
+						found = true
+					case *types.Pointer:
+						if _, ok := u.Elem().Underlying().(*types.Array); ok {
+							found = true
+						}
+					}
+				}
+			}
+		}
+		return !found
+	})
+	return found
+}
+
+// collectKnobs finds named package-level integer constants/variables (>= 16)
+// that are used like a capacity - array length in a type, make() size, right
+// operand of %, comparison against len()/cap(), (N-1) mask - and inline
+// literals (>= 16) compared against len()/cap() or used as a modulus.
+func collectKnobs(fset *token.FileSet, all []*fileCtx, rep *Report, info *types.Info) {
+	type decl struct {
+		fc    *fileCtx
+		lit   ast.Expr
+		value int64
+		line  int
+	}
+	named := map[string]*decl{}
+	for _, fc := range all {
+		if filepath.Dir(fc.rel) != "." {
+			continue
+		}
+		for _, d := range fc.f.Decls {
+			gd, ok := d.(*ast.GenDecl)
+			if !ok || (gd.Tok != token.CONST && gd.Tok != token.VAR) {
+				continue
+			}
+			for _, sp := range gd.Specs {
+				vs := sp.(*ast.ValueSpec)
+				for i, n := range vs.Names {
+					if i < len(vs.Values) {
+						if v, ok := intLit(vs.Values[i]); ok && v >= 16 {
+							named[n.Name] = &decl{fc: fc, lit: vs.Values[i], value: v, line: fset.Position(n.Pos()).Line}
+						}
+					}
+				}
+			}
+		}
+	}
+	uses := map[string]string{}
+	type inline struct {
+		fc  *fileCtx
+		lit ast.Expr
+		v   int64
+		use string
+	}
+	var inl []inline
+	note := func(fc *fileCtx, e ast.Expr, use string, allowInline bool) {
+		e = ast.Unparen(e)
+		if id, ok := e.(*ast.Ident); ok {
+			if _, ok := named[id.Name]; ok && uses[id.Name] == "" {
+				uses[id.Name] = use
+			}
+			return
+		}
+		if allowInline {
+			if v, ok := intLit(e); ok && v >= 16 {
+				inl = append(inl, inline{fc, e, v, use})
+			}
+		}
+	}
+	for _, fc := range all {
+		if filepath.Dir(fc.rel) != "." {
+			continue
+		}
+		skipArr := map[*ast.ArrayType]bool{}
+		ast.Inspect(fc.f, func(n ast.Node) bool {
+			switch x := n.(type) {
+			case *ast.CompositeLit:
+				if at, ok := x.Type.(*ast.ArrayType); ok && len(x.Elts) > 0 {
+					skipArr[at] = true
+				}
+			case *ast.ArrayType:
+				if x.Len != nil && !skipArr[x] {
+					note(fc, x.Len, "array", false)
+				}
+			case *ast.CallExpr:
+				if id, ok := x.Fun.(*ast.Ident); ok && id.Name == "make" {
+					for _, a := range x.Args[1:] {
+						note(fc, a, "make", false)
+					}
+				}
+			case *ast.BinaryExpr:
+				switch x.Op {
+				case token.REM:
+					note(fc, x.Y, "mod", true)
+				case token.LSS, token.LEQ, token.GTR, token.GEQ, token.EQL, token.NEQ:
+					if hasLenCall(x.X, info) {
+						note(fc, x.Y, "lencmp", true)
+					} else if hasLenCall(x.Y, info) {
+						note(fc, x.X, "lencmp", true)
+					}
+				case token.AND:
+					if be, ok := ast.Unparen(x.Y).(*ast.BinaryExpr); ok && be.Op == token.SUB {
+						if one, ok := intLit(be.Y); ok && one == 1 {
+							note(fc, be.X, "mask", false)
+						}
+					}
+				}
+			}
+			return true
+		})
+	}
+	var names []string
+	for n := range uses {
+		names = append(names, n)
+	}
+	sort.Strings(names)
+	for _, n := range names {
+		d := named[n]
+		o := fset.Position(d.lit.Pos()).Offset
+		rep.Knobs = append(rep.Knobs, Knob{ID: len(rep.Knobs), Name: n, File: d.fc.rel, Line: d.line, Value: d.value, Use: uses[n],
+			off: o, n: fset.Position(d.lit.End()).Offset - o})
+	}
+	sort.SliceStable(inl, func(i, j int) bool {
+		if inl[i].fc.rel != inl[j].fc.rel {
+			return inl[i].fc.rel < inl[j].fc.rel
+		}
+		return inl[i].lit.Pos() < inl[j].lit.Pos()
+	})
+	for _, x := range inl {
+		p := fset.Position(x.lit.Pos())
+		rep.Knobs = append(rep.Knobs, Knob{ID: len(rep.Knobs), File: x.fc.rel, Line: p.Line, Value: x.v, Use: x.use,
+			off: p.Offset, n: fset.Position(x.lit.End()).Offset - p.Offset})
+	}
 }
